@@ -7,7 +7,8 @@
    [refuted sp]: a concrete pair of valid claims (same nonce) differing in a relevant field with equal pre-image. *)
 From Coq Require Import ZArith List String.
 From FxV Require Import model.M_ClaimHash model.M_ClaimHashPreFix model.M_AttestExec gen.Gen_ClaimHash
-     proofs.P_ClaimHash proofs.P_ClaimHashGen proofs.P_AttestExec proofs.P_ClaimHashX.
+     proofs.P_ClaimHash proofs.P_ClaimHashGen proofs.P_AttestExec proofs.P_ClaimHashX
+     model.M_AttestExecDyn proofs.P_AttestExecDyn.
 Import ListNotations.
 Open Scope Z_scope.
 
@@ -128,6 +129,47 @@ Theorem C03_executed_is_voted_all_types : forall power required ops o tc st' e,
             forall o' tc', In (o', tc') (a_votes tclaim a) -> t_payload tc' = t_payload e.
 Proof. exact executed_is_voted_all_types. Qed.
 Print Assumptions C03_executed_is_voted_all_types.
+
+(* --- oracle powers and LastTotalPower CHANGING between the votes (add-delegate, re-delegate, removal, end-block
+       update of the total): histories are lists of DVote / DPower / DTotal (model/M_AttestExecDyn.v).  Whatever is
+       executed is the current voter's object; the attestation it sits in only holds votes of that nonce and pre-image,
+       cast by pairwise distinct oracles, whose powers AT THE CROSSING VOTE reach the required power OF THAT MOMENT --- *)
+Theorem C03_dyn_executed_by_quorum : forall C nonce key ops o c d' e,
+  ops_nonneg C ops ->
+  dstep C nonce key (fst (drun C nonce key (dinit C) ops)) (DVote o c) = (d', Some (Executed e)) ->
+  e = c /\
+  exists a, In a (atts C (d_core C d')) /\ a_observed C a = true /\ In (o, c) (a_votes C a) /\
+            (forall o' c', In (o', c') (a_votes C a) -> nonce c' = nonce e /\ key c' = key e) /\
+            NoDup (map fst (a_votes C a)) /\
+            drequired C (fst (drun C nonce key (dinit C) ops))
+              <= sum_power C (dpower C (fst (drun C nonce key (dinit C) ops))) (a_votes C a).
+Proof. exact dyn_executed_by_quorum. Qed.
+Print Assumptions C03_dyn_executed_by_quorum.
+
+(* ... and, for all six claim types voting into one store, it has the type and the relevant payload of every vote
+   tallied with it, however the powers moved in between *)
+Theorem C03_dyn_executed_is_voted_all_types : forall ops o tc d' e,
+  dops_valid tclaim t_valid ops -> t_valid tc ->
+  dstep tclaim t_nonce t_key (fst (drun tclaim t_nonce t_key (dinit tclaim) ops)) (DVote o tc) = (d', Some (Executed e)) ->
+  e = tc /\
+  exists a, In a (atts tclaim (d_core tclaim d')) /\ a_observed tclaim a = true /\ In (o, tc) (a_votes tclaim a) /\
+            forall o' tc', In (o', tc') (a_votes tclaim a) -> t_payload tc' = t_payload e.
+Proof. exact dyn_executed_is_voted_all_types. Qed.
+Print Assumptions C03_dyn_executed_is_voted_all_types.
+
+(* the dynamic part is not vacuous: the same three votes execute at the second or at the third vote depending on a
+   power change between them (powers and required power are those of the crossing moment) *)
+Theorem C03_dyn_nonvacuous :
+  snd (drun qclaim q_nonce q_key (dinit qclaim) (ex_setup ++ [DVote 1 ex_c; DVote 2 ex_c; DVote 3 ex_c]))
+    = [Voted; Executed ex_c; Voted] /\
+  snd (drun qclaim q_nonce q_key (dinit qclaim) (ex_setup ++ [DVote 1 ex_c; DPower 1 10; DVote 2 ex_c; DVote 3 ex_c]))
+    = [Voted; Voted; Executed ex_c] /\
+  snd (drun qclaim q_nonce q_key (dinit qclaim) (ex_setup ++ [DVote 1 ex_c; DPower 1 10; DTotal 210; DVote 2 ex_c; DVote 3 ex_c]))
+    = [Voted; Voted; Executed ex_c] /\
+  snd (drun qclaim q_nonce q_key (dinit qclaim) (ex_setup ++ [DVote 1 ex_c; DPower 1 10; DPower 2 200; DVote 2 ex_c; DVote 3 ex_c]))
+    = [Voted; Executed ex_c; Voted].
+Proof. exact dyn_example. Qed.
+Print Assumptions C03_dyn_nonvacuous.
 
 Theorem C03_collision_changes_execution : forall sp c1 c2,
   wf sp c1 -> wf sp c2 -> relevant sp c1 <> relevant sp c2 -> preimage sp c1 = preimage sp c2 ->
